@@ -157,6 +157,11 @@ func (svc *service) start() error {
 				msg.SetRetain(false)
 			}
 
+			// The DUP flag of an incoming PUBLISH is not propagated to
+			// subscribers (MQTT-3.3.1-3); with a QoS 0 delivery it would even
+			// yield a malformed packet (MQTT-3.3.1-2).
+			msg.SetDup(false)
+
 			if err := svc.publish(msg, nil); err != nil {
 				log.Errorf("(%s) Error publishing message: %v", svc.cid(), err)
 				return err
